@@ -115,6 +115,35 @@ func c07HasLarge(cs *c07Case) bool {
 	return false
 }
 
+func c07MixedSignDuplicates(cs *c07Case) bool {
+	for _, p := range cs.Bases {
+		col := -1
+		for j, t := range p.Types {
+			if t.Type == cs.Index {
+				col = j
+			}
+		}
+		if col < 0 {
+			continue
+		}
+		pos, neg := map[c07Key]bool{}, map[c07Key]bool{}
+		for _, sm := range p.Samples {
+			k := c07Key{Stack: c07StackStr(sm.Stack), Tag: sm.Tag}
+			if sm.Values[col] > 0 {
+				pos[k] = true
+			} else if sm.Values[col] < 0 {
+				neg[k] = true
+			}
+		}
+		for k := range pos {
+			if neg[k] {
+				return true
+			}
+		}
+	}
+	return false
+}
+
 func c07WithinRounding(cs *c07Case, model, actual []c07MSample) bool {
 	sum := func(ss []c07MSample) map[c07Key][]int64 {
 		w := map[c07Key][]int64{}
@@ -423,6 +452,13 @@ func (run *c07Run) checkCLI(cs *c07Case, o *c07CLIOut) bool {
 						} else {
 							baseTotal = 0
 						}
+					}
+					if c07MixedSignDuplicates(cs) {
+						// the report of a single base file is made without merging equal stacks, the
+						// difference merges them: Σ|v| differs when equal stacks carry opposite signs.
+						// The total is then checked against the Spec (c07.report) only.
+						c.Res.Hit("diffbase-total-mixed-sign-duplicates-skipped")
+						baseTotal = 0
 					}
 					if baseTotal > 0 {
 						c.Res.Hit("diffbase-total-checked")
